@@ -4,4 +4,5 @@ let () =
   | _ :: "iter" :: fence :: fill :: _ -> R_iter.run (int_of_string fence) (fill = "1")
   | _ :: "pool" :: _ -> R_pool.run ()
   | _ :: "stack" :: fence :: _ -> R_stack.run (int_of_string fence)
+  | _ :: "arena" :: _ -> R_arena.run ()
   | _ -> prerr_endline "usage: replay <topic> [args]"; exit 2
